@@ -37,7 +37,7 @@ HELPERS = [   # (name, index i of the paths (9, i, ...), parameter, path of the 
                            {"t": "ret", "x": "x"}]),
 ]
 MODULE_KINDS = {(8, 1): "modG", (8, 2): "modBox", (8, 3): "modH", (8, 4): "modG_", (8, 5): "modF",
-                (8, 6): "clsattr", (8, 7): "clsuattr", (8, 8): "modK", (8, 9): "modM"}
+                (8, 6): "clsattr", (8, 7): "clsuattr", (8, 8): "modK", (8, 9): "modM", (8, 10): "clstail"}
 BOX_VARS = ("o", "p")
 ATTR_NAMES = ("q0", "q1", "_q2", "c3", "_c4")      # c3, _c4: class level (values 2, 3)
 INNER_PARAM = "z"
@@ -135,6 +135,7 @@ def render(prog: list) -> tuple[str, dict, dict]:
     emit("class Box:", 0, (8, 2), MODULE_KINDS[8, 2])
     emit(f"{ATTR_NAMES[3]} = 2", 1, (8, 6), MODULE_KINDS[8, 6])
     emit(f"{ATTR_NAMES[4]} = 3", 1, (8, 7), MODULE_KINDS[8, 7])
+    emit("c5 = 0", 1, (8, 10), MODULE_KINDS[8, 10])    # never read (the last line of a class body carries its return)
     gap()
     for name, idx, param, defpath, body in HELPERS:
         emit(f"def {name}({param}):", 0, defpath, MODULE_KINDS[defpath])
